@@ -238,7 +238,7 @@ func genRouter(r *rand.Rand, n int, mode string, out *bufio.Writer) {
 
 // ---- C05: arbitrary and grammar-mutated PATTERN strings through CheckSyntax, URL, Handle (+ a few requests)
 var patAtoms = []string{"/", "/u", "/p-", "{", "}", ":", "-", "{id}", "{id:\\d+}", "{-id}", "{id:digit}", "{:x}", "{}", "{a}{b}", "{id:[}", "{id:(}", "{id:\\}",
-	"{\u540d}", "{id:.+}", "x", ".", "*", "", "{id", "id}", "}{", "{{", "}}", "{a:b:c}", "{a-b}", "{1x:\\d}", "\\", "%", " ", "{id:\\d{2}}", "{id:a|b}", "{id:a)|(b}", "{id:a)(b}", "{id:x)|(}", "{id:(?i)b}"}
+	"{\u540d}", "{id:.+}", "x", ".", "*", "", "{id", "id}", "}{", "{{", "}}", "{a:b:c}", "{a-b}", "{1x:\\d}", "\\", "%", " ", "{id:\\d{2}}", "{id:a|b}", "{id:a)|(b}", "{id:a)(b}", "{id:x)|(}", "{id:(?i)b}", "{:}", "{-}", "{-:}", "{-:x}", "{:}x", "{a:}", "{a}:", "{a}:{b}", ":{a}", "{a:b}:"}
 
 func randPattern(r *rand.Rand) string {
 	switch r.IntN(10) {
@@ -270,9 +270,37 @@ func randPattern(r *rand.Rand) string {
 	return b.String()
 }
 
-func genPatterns(r *rand.Rand, n int, out *bufio.Writer) {
+// every string up to length L over the bytes that matter to the pattern scanner (exhaustive small scope)
+func enumPatterns(L int) []string {
+	alpha := []string{"{", "}", ":", "-", "a", "/"}
+	out := []string{""}
+	level := []string{""}
+	for l := 0; l < L; l++ {
+		next := make([]string, 0, len(level)*len(alpha))
+		for _, s := range level {
+			for _, c := range alpha {
+				next = append(next, s+c)
+			}
+		}
+		out = append(out, next...)
+		level = next
+	}
+	return out
+}
+
+func genPatterns(r *rand.Rand, n int, enum int, out *bufio.Writer) {
+	var all []string
+	if enum > 0 {
+		all = enumPatterns(enum)
+		n = len(all)
+	}
 	for ci := 0; ci < n; ci++ {
-		pat := randPattern(r)
+		pat := ""
+		if enum > 0 {
+			pat = all[ci]
+		} else {
+			pat = randPattern(r)
+		}
 		icpt := map[string]string{}
 		if r.IntN(2) == 0 {
 			icpt = gIcpt
@@ -368,7 +396,11 @@ func cmdGen(args []string) {
 	switch *fam {
 	case "router":
 		if *mode == "patterns" {
-			genPatterns(r, *n, out)
+			genPatterns(r, *n, 0, out)
+		} else if strings.HasPrefix(*mode, "patenum") {
+			L := 4
+			fmt.Sscanf(*mode, "patenum%d", &L)
+			genPatterns(r, 0, L, out)
 		} else {
 			genRouter(r, *n, *mode, out)
 		}
